@@ -206,8 +206,22 @@ Lemma Reqb_m1_1 : Reqb (-1) 1 = false. Proof. apply Reqb_false; lra. Qed.
 Lemma Reqb_m1_m1 : Reqb (-1) (- (1)) = true. Proof. apply Reqb_true; lra. Qed.
 Lemma Reqb_1_1 : Reqb 1 1 = true. Proof. apply Reqb_refl. Qed.
 
+(* decide the comparisons of numerals *)
+Ltac dec_consts :=
+  repeat match goal with
+  | |- context [Rltb ?a ?b] =>
+      first [ replace (Rltb a b) with true by (symmetry; apply Rltb_true; lra)
+            | replace (Rltb a b) with false by (symmetry; apply Rltb_false; lra) ]
+  | |- context [Rleb ?a ?b] =>
+      first [ replace (Rleb a b) with true by (symmetry; apply Rleb_true; lra)
+            | replace (Rleb a b) with false by (symmetry; apply Rleb_false; lra) ]
+  | |- context [Reqb ?a ?b] =>
+      first [ replace (Reqb a b) with true by (symmetry; apply Reqb_true; lra)
+            | replace (Reqb a b) with false by (symmetry; apply Reqb_false; lra) ]
+  end.
+
 Ltac sheet_consts :=
-  unfold minus_int; cbn -[tan_deg]; rewrite ?Reqb_m1_0, ?Reqb_m1_1, ?Reqb_m1_m1, ?Reqb_1_1; cbn -[tan_deg]; consts.
+  unfold minus_int; cbn -[tan_deg]; dec_consts; cbn -[tan_deg]; consts.
 
 Ltac finish_sheet Ht :=
   eapply (two_lits _ _ _ _ _ 1 1);
